@@ -3,7 +3,7 @@ from __future__ import annotations
 
 import ast
 
-from ..amatch import AM
+from ..amatch import AM, has_in_helpers
 from ..effects import Effects
 from ..flow import expand
 from ..report import AnalysisError
@@ -95,7 +95,9 @@ def rule_c(ctx):
         if any(norm(a) == "self.cached_voxel_volume" for a in args):
             ops.append(sorted(norm(a) for a in args if norm(a) != "self.cached_voxel_volume"))
             tgt.add(norm(p.targets[0]))
-    ctx.ob(R, f.qname, "both input kinds multiply the cached voxel volume with the data", sorted(ops) == sorted([[data], [f"{data}.img"]]) and len(tgt) == 1,
+    fetched = f"{data} if isinstance({data}, np.ndarray) else {data}.img"
+    ops_x = sorted([norm(expand(f.node, ast.parse(a, mode="eval").body)) for a in o] for o in ops)
+    ctx.ob(R, f.qname, "both input kinds multiply the cached voxel volume with the data", (sorted(ops) == sorted([[data], [f"{data}.img"]]) or ops_x == [[fetched]]) and len(tgt) == 1,
            f"products {ops} into {tgt}", f.node)
     loops = [l for l in ast.walk(f.node) if isinstance(l, ast.For) and norm(l.iter) == "range(self.space_dim)"]
     ok = False
@@ -107,11 +109,13 @@ def rule_c(ctx):
     rets = [norm(r.value) for r in ast.walk(f.node) if isinstance(r, ast.Return) and r.value is not None]
     ctx.ob(R, f.qname, "the reduced weighted product is returned", rets == list(tgt), str(rets), f.node)
     # scaling: ratio of voxel counts, geometry over data
-    am = AM(f)
-    ok = am.has(f.node, "fetched_shape = list(fetched_data.shape[:self.space_dim])") is not None and (
-        am.has(f.node, "scaling = np.prod(np.divide(self.num_voxels, fetched_shape))") is not None
-        or am.has(f.node, "scaling = np.prod(np.array(self.num_voxels) / np.array(fetched_shape))") is not None)
-    ctx.ob(R, f.qname, "scaling is prod(num_voxels / spatial data shape)", ok, str(am.show()), f.node)
+    lets = (("fetched_shape", "list(fetched_data.shape[:self.space_dim])"),)
+    hit = None
+    for tpl in ("scaling = np.prod(np.divide(self.num_voxels, fetched_shape))", "scaling = np.prod(np.array(self.num_voxels) / np.array(fetched_shape))"):
+        hit, am_h, where = has_in_helpers(f, tpl, lets)
+        if hit is not None:
+            break
+    ctx.ob(R, f.qname, "scaling is prod(num_voxels / spatial data shape)", hit is not None, "", f.node)
     ctx.floor(R, 1)
     nm = m.func(MOD, "Geometry.normalize")
     am = AM(nm)
